@@ -198,6 +198,15 @@ func (a *Applier) Run(ctx context.Context, invInfo inventory.Info, objects objec
 			WithInventory(invInfo).
 			Build(taskContext, opts)
 
+		if options.NoPrune {
+			// Pruning is disabled: the objects of the inventory which are not
+			// in the apply set stay in the cluster, so they must stay in the
+			// inventory too. Record them as skipped deletes.
+			for _, id := range object.UnstructuredSetToObjMetadataSet(pruneObjs) {
+				taskContext.InventoryManager().AddSkippedDelete(id)
+			}
+		}
+
 		klog.V(4).Infof("validation errors: %d", len(vCollector.Errors))
 		klog.V(4).Infof("invalid objects: %d", len(vCollector.InvalidIds))
 
